@@ -1,6 +1,6 @@
 (** Pins for C11: the statements written out, so that no theorem is weakened quietly. *)
-From TucModel Require Import Base.Bytes Base.ListX Model.Bounds Model.Scan Model.Opt Model.CutStr Model.FastLane
-     Proofs.C06 Proofs.C11 Proofs.C11Run Properties.C11.
+From TucModel Require Import Base.Bytes Base.ListX Model.Bounds Model.Scan Model.Utf8 Model.Regex Model.Opt Model.CutStr
+     Model.FastLane Model.CutLines Model.Stream Proofs.C06 Proofs.C11 Proofs.C11Run Proofs.C11Utf8 Proofs.C11Stream Proofs.C11Lines Properties.C11.
 
 
 Check C11_records :
@@ -60,3 +60,31 @@ Check C11_fast_lane :
     read_and_cut_fast (with_eol (swap (o_eol o)) o) (map swap input)
     = option_map (rename_outcome swap) (read_and_cut_fast o input).
 Print Assumptions C11_fast_lane.
+
+Check C11_fixed_memory :
+  forall (o : opt) (input : bytes),
+    neutral_texts o ->
+    match stream_opt o, stream_opt (with_eol (swap (o_eol o)) o) with
+    | Some so, Some so' => run_stream_whole so' (map swap input) = rename_outcome swap (run_stream_whole so input)
+    | None, None => True
+    | _, _ => False
+    end.
+Print Assumptions C11_fixed_memory.
+
+Check C11_line_mode :
+  forall (o : opt) (input : bytes),
+    o_regex o = None -> o_json o = false -> neutral_line_texts o ->
+    read_and_cut_lines (with_line_eol (swap (o_eol o)) o) (map swap input)
+    = option_map (rename_outcome swap) (read_and_cut_lines o input).
+Print Assumptions C11_line_mode.
+
+Check C11_character_mode :
+  forall (o : opt) (input : bytes),
+    o_regex o = Some RxChars -> o_btype o = BChars -> o_json o = false -> neutral_texts o ->
+    read_and_cut_str (with_eol (swap (o_eol o)) o) (map swap input)
+    = option_map (rename_outcome swap) (read_and_cut_str o input).
+Print Assumptions C11_character_mode.
+
+Check C11_exchange_keeps_utf8 :
+  forall l : bytes, utf8_valid (map swap l) = utf8_valid l.
+Print Assumptions C11_exchange_keeps_utf8.
